@@ -400,6 +400,24 @@ def run_reply_flush(rep, facts):
     rep.floor("R7.8", "consume_output sites", n, 3)
 
 
+def run_input_delivery(rep, facts):
+    """R7.9: "sees exactly that request's input streams ... for every way the transport delays reads and writes": in the async read
+    interfaces nothing that can return Pending / Err runs between a productive parse and returning its count, and transport counts
+    are committed before any return (rules R9.3 / R9.7 of C09, re-evaluated)."""
+    import check as _check
+    from . import c09
+    rep.rule("R7.9", "what the handler reads is exactly the request's input stream when the write side is delayed: no Pending / Err exit between a productive "
+                     "parse and returning its count (R9.3); every transport byte count reaches Parser::parse before any return (R9.7)")
+    sr = _check.Report("tmp", "quick")
+    c09.run(sr, facts)
+    n = 0
+    for i in sr.instances:
+        if i["rule"] in ("R9.3", "R9.7"):
+            n += 1
+            (rep.ok if i["status"] == "ok" else rep.violation)("R7.9", i["instance"], i["detail"], i["loc"])
+    rep.floor("R7.9", "async delivery rules", n, 4)
+
+
 def run_compaction(rep, facts):
     from . import c12
     rep.rule("R7.6", "while draining to a record boundary (and in every in-request read) the buffer is compacted before reading, so a handler that left a large record unread cannot make close() fail for lack of buffer space")
@@ -416,6 +434,7 @@ def main(rep, tier):
     check.guard(rep, "R7.6", run_compaction, f)
     check.guard(rep, "R7.7", run_stream_switch, f)
     check.guard(rep, "R7.8", run_reply_flush, f)
+    check.guard(rep, "R7.9", run_input_delivery, f)
     rep.configs.append({"features": "async,http", "profile": "debug", "bodies": len(f.bodies)})
     check.guard(rep, "R7", run, f)
     import check as _c
@@ -423,5 +442,5 @@ def main(rep, tier):
     return rep.finish(
         "Ordering and provenance rules over the interprocedural event graph of Token::run (with Request::close, writeable, "
         "record_boundary inlined): handler-call counting per constructed Request, status provenance, epilogue preconditions and "
-        "uniqueness, reuse decision.",
-        not_decided="byte-level correctness of the output for every transport split (C10/C17 cover framing and encoding); that the handler sees exactly the request's environment and streams (C01/C02/C09)")
+        "uniqueness, reuse decision; the async read path never drops delivered input when the write side is delayed (R7.9).",
+        not_decided="byte-level correctness of the output for every transport split (C10/C17 cover framing and encoding); that the handler sees exactly the request's environment and streams beyond the necessary conditions R7.5-R7.9 (C01/C02/C09)")
